@@ -19,7 +19,9 @@ Oracle : (independent of the model) payloads tagged with their circuit leave onl
          (previous hop, same IP other port, unrelated), not made with the circuit's keys, are neither delivered nor answered
          and change neither tables nor request caches;
          a create under an id that is live in any table (relay id, exit id - also after the 60 s cache expired -,
-         own circuit id) replaces nothing and the old circuit keeps working; a destroy removes an entry iff it is
+         own circuit id) replaces nothing and the old circuit keeps working - at receivers of every role mix (a node holding
+         only an exit socket / relay routes and an exit socket / a circuit of its own and an exit socket / all three / only
+         circuits), for an id of each table, from an unrelated node and from the maker of the entry; a destroy removes an entry iff it is
          correctly signed by the neighbour stored for that id (matrix id x signer {adjacent, member, outsider, a stranger with a
          key of its own} x signature {valid, broken, key substituted} x table role x source address {the signer's own; for the
          stranger's validly signed destroys also the adjacent hop's exact address (spoofed) and its IP on another port}); a
@@ -909,6 +911,133 @@ async def create_in_use(ctx, tn, loop, book, r):
     return n
 
 
+async def alive_both_ways(tn, o, c, r):
+    """circuit c of originator o still carries a datagram to its exit and the reply back to o under c's id"""
+    path = c04.path_of(tn, c)
+    if not path or path[-1][2] != "exit" or o.circuits.get(c.circuit_id) is not c:
+        return False
+    if 2 not in path[-1][0].settings.peer_flags:
+        return True               # the far end is no BitTorrent exit: it would refuse the probe itself
+    data = tagged(r, c, 9998)
+    mark = len(tn.trace)
+    o.send_data(c.hop.address, c.circuit_id, ("192.0.2.1", 9), NULL, data)
+    await tn.settle()
+    if not any(rec[0] == "exit" and rec[2] == data for rec in tn.trace[mark:]):
+        return False
+    ex, xcid, _ = path[-1]
+    es = ex.exit_sockets.get(xcid)
+    if es is None:
+        return False
+    reply = b"d" + b"BACK" + data[1:]
+    mark = len(tn.trace)
+    es.tunnel_data(("192.0.2.1", 9), reply)
+    await tn.settle()
+    return any(rec[0] == "raw" and rec[1] == c.circuit_id and rec[3] == reply for rec in tn.trace[mark:])
+
+
+async def build_via(tn, o, nodes):
+    """a circuit of originator o through exactly these nodes (1 or 2 hops; the last one is the exit)"""
+    def peer_of(ov):
+        kb = ov.my_peer.public_key.key_to_bin()
+        return next(p for p in saved if p.public_key.key_to_bin() == kb)
+    saved = o.candidates
+    try:
+        if len(nodes) > 1:
+            first = peer_of(nodes[0])
+            o.candidates = {first: saved[first]}
+        c = o.create_circuit(len(nodes), required_exit=peer_of(nodes[-1]))
+    finally:
+        o.candidates = saved
+    if c is None:
+        return None
+    for _ in range(50):
+        await tn.settle()
+        if c.state == "READY" or c.circuit_id not in o.circuits:
+            break
+    return c if c.state == "READY" and [x[0] for x in c04.path_of(tn, c)] == list(nodes) else None
+
+
+async def create_in_use_mixed(ctx, tn, loop, book, r):
+    """create_in_use at receivers of every role mix.  Circuits of several originators are laid through chosen nodes so that
+    there is a node holding only an exit socket, one holding relay routes and an exit socket, one holding a circuit of its
+    own and an exit socket, one holding all three (and the originator: circuits only).  Then, for every node and every
+    table of it, a create naming an id of that table arrives - while the CreatedRequestCache of the entry's own create is
+    still live, and after it has expired (61 s) - from an unrelated node and from the node that made the entry.  Nothing
+    may change: every table entry of every node is the same object with the same keys and neighbour, and the circuit the
+    id belongs to still carries data both ways."""
+    from ipv8.messaging.anonymization.caches import CreatedRequestCache
+    from ipv8.messaging.anonymization.payload import CreatePayload
+    n = 0
+    victims = []
+    O = tn.origin
+    R0, R1 = (tn.nodes["relay0"], tn.nodes["relay1"])
+    E0, E1, E2 = (tn.nodes["exit0"], tn.nodes["exit1"], tn.nodes["exit2"])
+    # two-hop circuits first, each by an originator that has no circuit yet (create_circuit prefers first hops it uses least)
+    layout = [(O, [E1, E2]), (R0, [R1, E2]), (R1, [E2]),       # E1, R1: relay routes; R0, R1: a circuit of their own
+              (O, [E0]), (O, [E1]), (O, [R0]), (O, [R1])]      # exit sockets: E0 (nothing else), E1, R0, R1
+    for o, nodes in layout:
+        c = await build_via(tn, o, nodes)
+        if c is None:
+            ctx.broke("create-in-use (mixed roles): circuit %s -> %s not built" % (o._verif_name, [x._verif_name for x in nodes]))
+            return n
+        victims.append((o, c))
+    evs = []
+    await tn.tick(loop, 6, evs)            # hand-over windows close
+    book.add_all(evs, {"kind": "tick"})
+    owner = {}
+    for o, c in victims:
+        owner[(o._verif_name, c.circuit_id)] = (o, c)
+        for ov, cid, role in c04.path_of(tn, c):
+            owner[(ov._verif_name, cid)] = (o, c)
+            if role == "relay":
+                owner[(ov._verif_name, ov.relay_from_to[cid].circuit_id)] = (o, c)
+    mixes = set()
+    for phase in ("early", "late"):
+        if phase == "late":
+            evs = []
+            for _ in range(13):
+                await tn.tick(loop, 5, evs)
+                await tn.drain_c(evs)
+            book.add_all(evs, {"kind": "tick", "what": "61 s pass (CreatedRequestCache expiry)"})
+        for nm, node in sorted(tn.nodes.items()):
+            mix = "+".join(t for t, tab in (("circuit", node.circuits), ("relay", node.relay_from_to), ("exit", node.exit_sockets)) if tab)
+            for table, tab in (("circuit", node.circuits), ("relay", node.relay_from_to), ("exit", node.exit_sockets)):
+                if not tab:
+                    continue
+                cid = sorted(tab)[r.randrange(len(tab))]
+                x = tab[cid]
+                maker = tn.by_addr.get(tuple(x.hop.address)) if table != "circuit" else None
+                senders = [("unrelated", next(ov for ov in tn.nodes.values() if ov is not node and ov is not maker))]
+                if maker is not None:
+                    senders.append(("maker-of-the-entry", maker))
+                for sname, sender in senders:
+                    age = "live" if node.request_cache.has(CreatedRequestCache, cid) else "expired-or-none"
+                    before = entry_ids(tn)
+                    _, pub = sender.crypto.generate_diffie_secret()
+                    meta = {"kind": "create-in-use-mixed", "receiver_tables": mix, "id_in": table, "cache": age, "sender": sname,
+                            "what": "create naming a live %s id at a node holding {%s} (CreatedRequestCache of that id: %s), sent by %s" % (table, mix, age, sname)}
+                    sender.send_cell(node.my_peer.address, CreatePayload(cid, r.randrange(65536), sender.my_peer.public_key.key_to_bin(), pub))
+                    evs = []
+                    await tn.drain_c(evs)
+                    await tn.tick(loop, 1, evs)
+                    await tn.drain_c(evs)
+                    book.add_all(evs, meta)
+                    n += 1
+                    mixes.add((mix, table, age))
+                    ctx.count(("create-in-use-mixed", mix, table, age, sname), nontrivial=True)
+                    after = entry_ids(tn)
+                    if after != before:
+                        ctx.violation("create-in-use/entry-replaced", "%s: table entries changed at %s" % (
+                            meta["what"], [k for k in before if before[k] != after[k]]), meta)
+                        return n
+                    vo, vc = owner.get((nm, cid), (None, None))
+                    if vc is not None and not await alive_both_ways(tn, vo, vc, r):
+                        ctx.violation("create-in-use/circuit-broken", "%s: the circuit the id belongs to no longer carries data both ways" % meta["what"], meta)
+                        return n
+    ctx.extra["create_in_use_mixes"] = sorted("%s|id in %s|%s" % m for m in mixes)
+    return n
+
+
 async def forged_cells(ctx, tn, book, r, circuits):
     """cells naming an unknown id, or a known id with a body not made with that circuit's keys"""
     n = 0
@@ -1181,6 +1310,15 @@ async def _run(ctx, loop):
     finally:
         await tn.stop()
     evaluate(ctx, tn, book, "create")
+    # ---- 2a': the same at receivers of every role mix (exit sockets next to relay routes / own circuits)
+    tn = CNet(n_relays=2, n_exits=3, exit_flags=(2, 4, 8))
+    await tn.start()
+    book = Book(ctx)
+    try:
+        stats["create_in_use_mixed"] = await create_in_use_mixed(ctx, tn, loop, book, r)
+    finally:
+        await tn.stop()
+    evaluate(ctx, tn, book, "createmix")
     # ---- 2b: a forged create racing a genuine one under the same id
     tn = CNet(n_relays=3, n_exits=2, exit_flags=(2, 4, 8))
     await tn.start()
@@ -1265,6 +1403,11 @@ async def replay_case(case, loop):
         kind = case.get("kind")
         if kind == "create-in-use":
             await create_in_use(ctx, tn, loop, book, r)
+        elif kind == "create-in-use-mixed":
+            await tn.stop()
+            tn = CNet(n_relays=2, n_exits=3, exit_flags=(2, 4, 8))
+            await tn.start()
+            await create_in_use_mixed(ctx, tn, loop, book, r)
         elif kind == "forged-known-id":
             cs = await build(tn, [1, 2, 3])
             await transfer_check(ctx, tn, book, r, cs, case, rounds=8, pick=None)
@@ -1342,7 +1485,9 @@ def run(ctx):
     ctx.coverage["rule"] = ("quick: 2 networks (3-4 relays, 2 exits) x 3-4 concurrent circuits of 1..3 hops built under observation, 100 rounds each of "
                             "tagged data both ways on all circuits at once with deliveries in random order (thorough: 6 networks, 4-6 circuits, 300 rounds); "
                             "forged cells (unknown id / garbage / other circuit's body / outsider keys) at every entry of every circuit; well-formed cells of 7 types x "
-                            "plaintext flag x relay_early x 3 senders under every known id of every circuit; creates under live "
+                            "plaintext flag x relay_early x 3 senders under every known id of every circuit; creates at receivers of every role mix "
+                            "{exit only, relay+exit, own circuit+exit, all three, circuits only} x table holding the id x CreatedRequestCache {live, expired} x "
+                            "sender {unrelated, maker of the entry}; creates under live "
                             "relay-in / relay-out / exit / own-circuit ids within and after the 60 s cache; same-id creates dispatched back-to-back with a genuine create "
                             "(first hop / extend hop x both orders); re-extended circuit + stale / unknown / duplicate created; 10 (thorough 60) rounds of 2-3 circuits of different originators at one "
                             "exit with delayed transport opening interleaved with first packets + outside replies; destroy matrix {own, other, unknown id} x {adjacent, "
